@@ -569,9 +569,25 @@ def run(ctx: Ctx) -> None:
     ctx.rule('C01.R8', 'engine-call contract of calculator.calculate_function_and_derivatives (roles of every argument handed to pyEvaluateOneExpression)')
     ctx.rule('C01.R9', 'value vectors follow the id tables (ORD): free_betas_values / fixed_betas_values / bounds are built over the sorted names of the matching kind, '
              'the same order that defines betaId, so that parameter k of the engine is the parameter whose record carries id k')
+    ctx.rule('C01.R10', 'who may write: the id manager of a node is assigned only by set_id_manager (which also renumbers the node and hands the manager to the children) and by the constructor; '
+             'a plain store elsewhere leaves the ids of the sub-formulas with the manager that was replaced')
     ctx.not_decided += ['the arithmetic of the compiled engine (outside /repo)', 'ConditionalSum terms sharing one condition object collide inside the engine (unordered_map keyed by the condition)']
 
     E = prog.cls(BASE, 'Expression')
+    # ---- R10
+    n_w = 0
+    for c_ in [E] + prog.subclasses(E):
+        for m_ in c_.methods.values():
+            for a_ in walk_no_nested(m_.node):
+                if isinstance(a_, ast.Assign) and any(unparse(t_) == 'self.id_manager' for t_ in a_.targets):
+                    okw = m_.name in ('set_id_manager', '__init__')
+                    n_w += okw
+                    ctx.add('C01.R10', f'{c_.name}.{m_.name}:self.id_manager', okw, (m_.file, a_.lineno),
+                            'the id manager is assigned by set_id_manager / the constructor' if okw else
+                            f'{c_.name}.{m_.name} stores `self.id_manager = {unparse(a_.value)}` directly: only this node changes manager, the elementary expressions below it keep the ids (elementaryIndex, betaId, variableId) they '
+                            'were given under the other manager, and a formula that shares them is evaluated with the ids of another numbering', unparse(a_), positive=True)
+    if n_w < 4:
+        raise AnalysisError(f'C01.R10: only {n_w} assignments of self.id_manager in set_id_manager / __init__ found')
     # ---- R1
     n1 = 0
     for dunder, (cname, reflected) in OPERATOR_TABLE.items():
